@@ -124,7 +124,8 @@ Fixpoint hdr_add_all (m : hmap) (l : list (text * text)) : option hmap :=
 
 (* ---------- the request as the server's reader delivers it ---------- *)
 Record request := {
-  r_https : bool;                      (* HTTPServer(protocol="https") / TLS *)
+  r_https : bool;                      (* HTTPServer(protocol="https") / TLS: the connection's protocol *)
+  r_xheaders : bool;                   (* HTTPServer(xheaders=True) *)
   r_remote_ip : text;                  (* connection context *)
   r_v11 : bool;                        (* HTTP/1.1 (true) or HTTP/1.0 (false) *)
   r_method : text;
@@ -173,7 +174,35 @@ Definition rpartition1 (sep : N) (s : text) : text * bool * text :=
 
 (* what the server has after reading the head: the header map and the Host value.
    None = the request is answered 400 and never reaches the application. *)
-Record accepted := { q_headers : hmap; q_host : text; q_path : text; q_query : text }.
+Record accepted := { q_headers : hmap; q_host : text; q_path : text; q_query : text;
+                     q_https : bool (* request.protocol == "https" *) }.
+
+(* httpserver._HTTPRequestContext._apply_xheaders, the protocol part (per request, undone by
+   _unapply_xheaders when the request completes):
+     proto_header = headers.get("X-Scheme", headers.get("X-Forwarded-Proto", self.protocol))
+     if proto_header: proto_header = proto_header.split(",")[-1].strip()
+     if proto_header in ("http", "https"): self.protocol = proto_header
+   (X-Forwarded-For / X-Real-Ip need getaddrinfo and are not generated.) *)
+Definition is_pyspace (c : N) : bool :=                 (* str.isspace() for code points < 256 *)
+  in_range 9 13 c || in_range 28 32 c || (c =? 133) || (c =? 160).
+Fixpoint lstrip_py (s : text) : text :=
+  match s with c :: r => if is_pyspace c then lstrip_py r else s | [] => [] end.
+Definition py_strip (s : text) : text := rev (lstrip_py (rev (lstrip_py s))).
+Definition k_xscheme := t "X-Scheme".
+Definition k_xfproto := t "X-Forwarded-Proto".
+
+Definition effective_https (xheaders https : bool) (x_scheme x_forwarded_proto : option text) : bool :=
+  if xheaders then
+    let ph := match x_scheme with
+              | Some v => v
+              | None => match x_forwarded_proto with Some v => v | None => if https then t "https" else t "http" end
+              end in
+    let ph' := match ph with
+               | [] => ph
+               | _ => let '(_, _, lastp) := rpartition1 44 ph in py_strip lastp     (* split(",")[-1].strip() *)
+               end in
+    if text_eqb ph' (t "http") then false else if text_eqb ph' (t "https") then true else https
+  else https.
 
 Definition strip_value (nv : text * text) : text * text := (fst nv, strip_ws (snd nv)).
 
@@ -195,7 +224,8 @@ Definition accept (r : request) : option accepted :=
             else if existsb (N.eqb 44) hv then None            (* Multiple host headers *)
             else
               let '(p, _, q) := partition1 63 (r_uri r) in
-              Some {| q_headers := h; q_host := hv; q_path := p; q_query := q |}
+              Some {| q_headers := h; q_host := hv; q_path := p; q_query := q;
+                      q_https := effective_https (r_xheaders r) (r_https r) (hm_get k_xscheme h) (hm_get k_xfproto h) |}
         end
     end.
 
@@ -283,7 +313,7 @@ Definition path_info (path : text) : option text := option_map unquote_bytes (pa
 Inductive env_result := EnvOk (e : wenv) | EnvRaise.
 
 Definition environ (r : request) (a : accepted) : env_result :=
-  match split_host (q_host a) (r_https r), path_info (q_path a) with
+  match split_host (q_host a) (q_https a), path_info (q_path a) with
   | inl (host, port), Some pinfo =>
       let h0 := q_headers a in
       let '(x1, h1) := match hm_get k_ctype h0 with
@@ -301,7 +331,7 @@ Definition environ (r : request) (a : accepted) : env_result :=
                e_name := host;
                e_port := dec_N port;
                e_protocol := if r_v11 r then t "HTTP/1.1" else t "HTTP/1.0";
-               e_scheme := if r_https r then t "https" else t "http";
+               e_scheme := if q_https a then t "https" else t "http";
                e_input := r_body r;
                e_extra := fold_left (fun e kv => env_set (cgi_key (fst kv)) (snd kv) e) (hm_items h2) x2 |}
   | _, _ => EnvRaise
@@ -450,3 +480,38 @@ Definition serve (version : text) (r : request) (o : app_out) : outcome :=
       | EnvOk e => Served e (handle_request version r a o)
       end
   end.
+
+(* ---------- one WSGIContainer serving a sequence of requests ----------
+   The container object has two attributes, wsgi_application and executor, assigned in __init__ and
+   never again; environ() and handle_request() read self.executor / self.wsgi_application only (the
+   translator translators/c47_src.py refuses any other use of `self` in environ).  Its state is
+   therefore the unit type: nothing is carried from one request to the next. *)
+Definition cstate := unit.
+Definition container_step (version : text) (st : cstate) (ro : request * app_out) : cstate * outcome :=
+  (st, serve version (fst ro) (snd ro)).
+Fixpoint container_run (version : text) (st : cstate) (l : list (request * app_out)) : list outcome :=
+  match l with
+  | [] => []
+  | ro :: l' => let '(st', out) := container_step version st ro in out :: container_run version st' l'
+  end.
+
+(* ---------- primitives and vocabulary used by the generated Gen/C47_src.v ---------- *)
+Definition nonempty (s : text) : bool := match s with [] => false | _ => true end.    (* truth value of a str *)
+Definition is_empty (s : text) : bool := match s with [] => true | _ => false end.    (* s == "" *)
+(* s.isascii() and s.isdecimal(): among ASCII characters the decimal ones are 0-9; "" is not decimal *)
+Definition ascii_decimal (s : text) : bool := match s with [] => false | _ => forallb is_digit s end.
+Definition py_upper (s : text) : text := map upper s.                      (* str.upper(), ASCII text *)
+Definition py_replace1 (a b : N) (s : text) : text := map (fun c => if c =? a then b else c) s.
+Inductive codec := Latin1 | Utf8.
+(* where each value of the dict literal comes from *)
+Inductive vsrc :=
+| VMethod | VConstStr (s : string) | VPathInfo | VQuery | VRemoteIp | VHost | VPortStr | VVersion
+| VTuple10 | VProtocol | VInput | VStderr | VMultithread | VTrue | VFalse.
+(* the reading of the dict literal this model (record wenv + the constants the harness checks) embodies *)
+Definition expected_fixed : list (string * vsrc) :=
+  [("REQUEST_METHOD", VMethod); ("SCRIPT_NAME", VConstStr ""); ("PATH_INFO", VPathInfo);
+   ("QUERY_STRING", VQuery); ("REMOTE_ADDR", VRemoteIp); ("SERVER_NAME", VHost); ("SERVER_PORT", VPortStr);
+   ("SERVER_PROTOCOL", VVersion); ("wsgi.version", VTuple10); ("wsgi.url_scheme", VProtocol);
+   ("wsgi.input", VInput); ("wsgi.errors", VStderr); ("wsgi.multithread", VMultithread);
+   ("wsgi.multiprocess", VTrue); ("wsgi.run_once", VFalse)]%string.
+
